@@ -234,6 +234,8 @@ struct Snapshot {
     terminal: bool,
     pos_of_buf: usize,
     vec_len: usize,
+    /// bytes of the BufReader's left-over buffer the reader has not taken in yet
+    chain_pending: usize,
 }
 
 fn snapshot(w: &World) -> Snapshot {
@@ -249,6 +251,7 @@ fn snapshot(w: &World) -> Snapshot {
         terminal: s.terminal(),
         pos_of_buf: st.pos_of_buf,
         vec_len: st.buf_len,
+        chain_pending: w.leftover.saturating_sub(st.pos_of_buf.wrapping_add(st.pos_in_buf).wrapping_add(st.valid_len)),
     }
 }
 
@@ -402,9 +405,11 @@ fn oracle(cfg: &Cfg, mode: Mode, data: &[u8], w: &mut World, op: &ROp, before: &
     };
     match op {
         ROp::RequestMore => {
-            let expect_non_intr = if before.complete { 0 } else { 1 };
+            // one successful read of the underlying chain: served from the BufReader's left-over
+            // bytes while there are any (no source call), from the source afterwards
+            let expect_non_intr = if before.complete || before.chain_pending > 0 { 0 } else { 1 };
             if reads - intr != expect_non_intr {
-                p.push(("reads", format!("request_more() performed {} non-interrupted reads, expected exactly {expect_non_intr}", reads - intr)));
+                p.push(("reads", format!("request_more() performed {} non-interrupted reads of the source, expected exactly {expect_non_intr} ({} pre-buffered bytes pending)", reads - intr, before.chain_pending)));
             }
         }
         ROp::Request(_) | ROp::ByteAt(_) | ROp::RequestByte => {
@@ -414,7 +419,9 @@ fn oracle(cfg: &Cfg, mode: Mode, data: &[u8], w: &mut World, op: &ROp, before: &
             }
             // stopped as soon as satisfied: before the last successful read the request was unsatisfied
             if ok > 0 {
-                let before_last = before.buf_len + sizes[..sizes.len() - 1].iter().sum::<usize>();
+                // pre-buffered bytes are always taken in before the source is asked, so the last
+                // read of the operation is the last source read
+                let before_last = w.reader.buf_len() - sizes[sizes.len() - 1].min(w.reader.buf_len());
                 if before_last >= need {
                     p.push(("reads", format!("{op:?} kept reading after it was satisfied ({before_last} bytes buffered before the last read, needed {need})")));
                 }
@@ -858,9 +865,8 @@ pub fn configs(mode: Mode, tier: Tier) -> Vec<Cfg> {
         }
     }
     if mode == Mode::C09 {
-        // reads served from the BufReader's left-over bytes never reach the scripted source; the
-        // call counting oracle is only meaningful when the reader talks to the source directly
-        v.retain(|c| c.ctor == Ctor::FromRead);
+        // a faulting source behind a BufReader: the BufReader's own fill already met the fault
+        v.retain(|c| c.ctor == Ctor::FromRead || c.fault_at.is_none());
     }
     // largest streams first: better load balance over the workers
     v.sort_by_key(|c| std::cmp::Reverse(c.n));
